@@ -881,7 +881,7 @@ func (e *env) checkWakeups(phase int) {
 		time.Sleep(time.Duration(round) * 150 * time.Millisecond)
 		schedBarrier()
 		if len(blocked()) == 0 {
-			e.r.Count("slow_wakeups_seen_during_settle", 1)
+			e.r.Count("slow_wakeups_seen_during_settle/"+e.impl, 1)
 			return
 		}
 		if !probeAll() {
@@ -891,7 +891,7 @@ func (e *env) checkWakeups(phase int) {
 	}
 	bl = blocked()
 	if len(bl) == 0 {
-		e.r.Count("slow_wakeups_seen_during_settle", 1)
+		e.r.Count("slow_wakeups_seen_during_settle/"+e.impl, 1)
 		return
 	}
 	byShape := map[string][]blockedInfo{}
